@@ -152,6 +152,12 @@ fn structural(pkg: &Value) -> Vec<(String, Value)> {
     };
     v.push(("price".into(), bump(pkg, &["snapshot", "price"])));
     v.push(("version".into(), bump(pkg, &["version"])));
+    // the neighbours and the extremes of the version figure (0 was never a version; u32::MAX; one beyond u32)
+    for (name, val) in [("version0", json!(0)), ("versionmax", json!(u32::MAX)), ("versionbig", json!(1u64 << 32)), ("versionneg", json!(-1))] {
+        let mut q = pkg.clone();
+        q["version"] = val;
+        v.push((name.into(), q));
+    }
     let mut q = pkg.clone();
     q["checksum"] = json!("deadbeef");
     v.push(("checksum".into(), q));
@@ -234,7 +240,7 @@ pub fn run(sc: &Value, pk: usize) -> Vec<String> {
     // every tenth byte fault also through into_snapshot()
     let mut nth = 0usize;
     // byte faults
-    let subs: [u8; 3] = [b'7', b'"', 0xC3];
+    let subs: [u8; 4] = [b'7', b'0', b'"', 0xC3];
     let stride = sc["stride"].as_u64().unwrap_or(1) as usize;
     for pos in (0..bytes.len()).step_by(stride) {
         for s in subs {
